@@ -75,6 +75,7 @@ package pkce
 //@   ensures [C03.enforced-needs-challenge] canhandle && c.Config.GetEnforcePKCE(ctx) && err == nil ==> had && challenge != ""
 //@   ensures [C03.failed-attempt-keeps-binding] err != nil ==> pkce_exists == old(pkce_exists)
 //@   ensures [C03.fault-refuses] faults != old(faults) ==> err != nil
+//@   ensures [C18.pkce-fault-refuses] faults != old(faults) ==> err != nil
 //@   ensures [C03.success-consumes-binding] canhandle && had && err == nil ==> !pkce_exists[sig]
 //@   ensures [C03.refusal-class] canhandle && err != nil && faults == old(faults) ==> ekind(err) == "invalid_grant" || ekind(err) == "invalid_request"
 
